@@ -50,7 +50,11 @@ CLAIMS = {
     'C15': dict(
         text="c15_sub_denote, c15_sub_forwards, inline_sdenote, c15_inline_rows: a sub-query in condition position at any depth "
              "under &,| returns the rows of the flattened query. Correspondence: composed vs flattened vs oracle, tree shape.",
-        note=BASE_NOTE + "Sub-queries as comparison operands / constructor arguments: correspondence only.",
+        note=BASE_NOTE + "Sub-queries as comparison operands / constructor arguments: correspondence only (rows against the oracle of "
+             "the explicit twin: uncorrelated an / the operands, correlated the(...), correlated an(...) whose own variable is what "
+             "the enclosing query selects (R36), a sub-query constraining a flattened element it does not select). A comparison with a "
+             "CORRELATED sub-query operand on the left of a disjunction loses the outer values under which the sub-query has no "
+             "solution: known finding C15-F1, attributed only when exactly those values are missing.",
         tech="Lean 4 proof + differential correspondence"),
     'C18': dict(
         text="Rewrite relation Rw (swap, re-association, mirroring, contains/in_, congruence, all compositions): rw_sdenote, "
@@ -130,7 +134,9 @@ CLAIMS = {
              "satisfies the condition), c16_flatten_binds_an_element, and THE EQUIVALENCE c16_unnest_rows_iff for every condition whose "
              "disjunctions bind the same ids on both sides: a row is produced iff some admissible assignment satisfies the condition "
              "and the row is the selection under it (Lemmas/FlatAdm.lean: evaluation only produces admissible bindings). Correspondence: "
-             "parents with empty/overlapping/scalar/repeated/falsy inner values, every selection and condition shape incl. and_/or_.",
+             "parents with empty/overlapping/scalar/repeated/falsy inner values, every selection and condition shape incl. and_/or_, "
+             "a parent that is an unselected query result (flatten(an(entity(p, c)).items)), the element constrained inside a "
+             "sub-query that does not select it.",
         note=BASE_NOTE + "Multiplicities for disjunctions and other combinations of conditions are covered by correspondence (the "
              "general theorems are set-level; the equivalence needs uniform disjunctions). With caching enabled a condition on "
              "the flattened element is subject to known finding C05-F2 (cache keyed on variables only).",
